@@ -91,14 +91,26 @@ def _cmake_sources(cmakelists, target):
     return srcs
 
 
-def _prune(prefix, keep, keep_n=12, max_age_s=5400):
-    """Drops old builds of the same kind. Several checks (and scratch trees given through VERIF_REPO) may be building and
-    running at the same time, so a build is only removed when it is old or when there are many newer ones."""
+def _touch(d):
+    """Marks a build directory as used now (its mtime is what _prune looks at)."""
+    try:
+        os.utime(d, None)
+    except OSError:
+        pass
+
+
+def _prune(prefix, keep, keep_n=24, max_idle_s=6 * 3600, min_idle_s=45 * 60):
+    """Drops builds of the same kind that have not been used for a long time. Several checks (and scratch trees given through
+    VERIF_REPO) may be building and running at the same time - a library that disappears under a running check would make the dynamic
+    loader fall back to the system's libtbb silently - so: every use refreshes the directory's mtime (_touch, also while jobs run), a
+    directory used within the last 45 minutes is never removed, and otherwise one goes when it has been idle for 6 hours or when more
+    than keep_n newer ones exist."""
     ds = [d for d in glob.glob(os.path.join(BUILD, prefix + "-*")) if os.path.isdir(d) and os.path.basename(d) != keep and not d.endswith(".tmp")]
     ds.sort(key=lambda d: os.path.getmtime(d), reverse=True)
     now = time.time()
     for i, d in enumerate(ds):
-        if i >= keep_n or now - os.path.getmtime(d) > max_age_s:
+        idle = now - os.path.getmtime(d)
+        if idle > min_idle_s and (i >= keep_n or idle > max_idle_s):
             shutil.rmtree(d, ignore_errors=True)
 
 
@@ -130,6 +142,7 @@ def build_lib(variant):
     d = os.path.join(BUILD, name)
     with _Lock("lib-" + variant):
         if os.path.exists(os.path.join(d, "libtbb.so.12")):
+            _touch(d)
             return d
         t0 = time.time()
         _prune("lib-" + variant, name)
@@ -168,6 +181,7 @@ def build_malloc(variant, debug_asserts=False):
     d = os.path.join(BUILD, name)
     with _Lock("malloc-" + vname):
         if os.path.exists(os.path.join(d, "libtbbmalloc.so.2")):
+            _touch(d)
             return d
         t0 = time.time()
         _prune("malloc-" + vname, name)
@@ -210,6 +224,7 @@ def build_harness(name, variant, with_tbb=True, with_malloc=False, malloc_debug=
     exe = os.path.join(d, name)
     with _Lock(tag):
         if os.path.exists(exe):
+            _touch(d)
             return exe
         t0 = time.time()
         _prune(tag, dname)
@@ -225,6 +240,9 @@ def build_harness(name, variant, with_tbb=True, with_malloc=False, malloc_debug=
         rc, out = _run(cmd)
         if rc != 0:
             raise BuildError("harness %s (%s) failed to compile\n%s" % (name, variant, out[-6000:]))
+        # the libraries this executable must find at run time (checked by the driver before every job and by the harness itself)
+        with open(os.path.join(tmp, "libdirs.txt"), "w") as f:
+            f.write("\n".join(x for x in (libdir, mdir) if x) + "\n")
         os.rename(tmp, d)
         log("built harness %s/%s in %.1fs" % (name, variant, time.time() - t0))
     return exe
@@ -273,6 +291,23 @@ def _run_job(job, workdir):
     logp = os.path.join(workdir, "%s.%d.san" % (job.tag, job.attempts))
     env = dict(os.environ)
     env.update(job.env)
+    # the libraries the executable was linked against must still be there (and are marked as in use); the harness verifies on its side that
+    # the libtbb / libtbbmalloc it really loaded come from these directories (a missing directory would otherwise mean the system's library)
+    libdirs = []
+    try:
+        libdirs = [l.strip() for l in open(os.path.join(os.path.dirname(job.exe), "libdirs.txt")) if l.strip()]
+    except OSError:
+        pass
+    for ld in libdirs:
+        _touch(ld)
+    _touch(os.path.dirname(job.exe))
+    missing = [ld for ld in libdirs if not os.path.isdir(ld)]
+    if missing:
+        job.rc, job.result, job.san_reports, job.wall = 2, None, [], 0.0
+        job.stderr_tail = "[driver] library directory of this harness has disappeared: %s" % ", ".join(missing)
+        return job
+    if libdirs:
+        env["VRT_EXPECT_LIBDIRS"] = ":".join(libdirs)
     if job.variant in SAN_ENV:
         env.update(SAN_ENV[job.variant](logp))
     cmd = [job.exe] + job.args + ["--out", out]
